@@ -19,6 +19,8 @@ type RoundPolicy struct {
 	// After runs after the timers of a step fired and before the network moves; the adversary crafts/injects/bumps here.
 	// `sent` are the envelopes the engines produced in this step.
 	After func(step int, sent []*Env)
+	// AfterRoute runs after the network moved the envelopes of the step (messages the adversary wants to arrive LAST).
+	AfterRoute func(step int, sent []*Env)
 	// MaxSteps bounds the number of steps (0 = 10).
 	MaxSteps int
 }
@@ -79,6 +81,9 @@ func (s *Sim) RunRound(p *RoundPolicy) (all []*Env) {
 					_ = s.Deliver(e.ID, to)
 				}
 			}
+		}
+		if p.AfterRoute != nil {
+			p.AfterRoute(step, sent)
 		}
 	}
 	return
@@ -199,13 +204,13 @@ type Proposal struct {
 // NewProposal lets the adversary make up a well-formed proposal.
 func (s *Sim) NewProposal(proposer int, tag string, rcBuild uint64) *Proposal {
 	blk, h := s.MakeBlock(proposer, tag)
-	res := s.MakeResults(proposer, nil)
+	res := s.MakeResults(proposer, nil, rcBuild)
 	return &Proposal{Block: blk, BlockHash: h, Results: res, ResultsHash: res.Hash(), RcBuild: rcBuild}
 }
 
 // WithOtherResults returns a proposal of the SAME block with different certificate results.
 func (s *Sim) WithOtherResults(p *Proposal, proposer int, tag string) *Proposal {
-	res := s.MakeResultsVar(proposer, tag)
+	res := s.MakeResultsVar(proposer, tag, p.RcBuild)
 	return &Proposal{Block: p.Block, BlockHash: p.BlockHash, Results: res, ResultsHash: res.Hash(), RcBuild: p.RcBuild}
 }
 
